@@ -102,8 +102,21 @@ impl Check for C08 {
         let n_roots = s.range(1, 2);
         let (env, roots) = gen_env_and_roots(s, &cfg, n_roots);
         let roots: Vec<(String, D)> = roots.into_iter().enumerate().map(|(i, d)| (format!("P{}", i), d)).collect();
-        let (p1, r1) = render_program(&env, &roots, RenderCfg::c08(), s, "");
-        let (p2, r2) = render_program(&env, &roots, RenderCfg::c08(), s, "");
+        // one pair in six differs in comments only: a heavily documented program against itself with every comment removed
+        let comment_only = s.chance(1, 6);
+        let (p1, r1, p2, r2) = if comment_only {
+            let mut rc = RenderCfg::c08();
+            rc.feats.push(Feat::JsdocHeavy);
+            let (p1, r1) = render_program(&env, &roots, rc, s, "");
+            let p2 = crate::c09::strip_comments(&p1);
+            let mut r2 = r1.clone();
+            r2.used.insert("comment_only_pair".into(), 1);
+            (p1, r1, p2, r2)
+        } else {
+            let (p1, r1) = render_program(&env, &roots, RenderCfg::c08(), s, "");
+            let (p2, r2) = render_program(&env, &roots, RenderCfg::c08(), s, "");
+            (p1, r1, p2, r2)
+        };
         let mut values = vec![];
         for (_, d) in &roots {
             values.push(gen_values(&env, d, s, Mode::Open, 9, 9, 6));
@@ -165,7 +178,10 @@ impl Check for C08 {
             let (h1, h2) = (&a.hash256[i]["r"], &b.hash256[i]["r"]);
             if h1 != h2 {
                 let du = case.used1.contains_key("du_merged") || case.used2.contains_key("du_merged");
-                let sig = if du { "discriminated_union_shape".to_string() } else { token_diff_class(&a.hash256[i], &b.hash256[i], &case.env, d) };
+                // (two programs that differ in comments only have the same aliases, order and nesting: none of the listed
+                // hash findings applies to them)
+                let comment_only = case.used2.contains_key("comment_only_pair");
+                let sig = if comment_only { format!("comments_only:{}", token_diff_class(&a.hash256[i], &b.hash256[i], &case.env, d)) } else if du { "discriminated_union_shape".to_string() } else { token_diff_class(&a.hash256[i], &b.hash256[i], &case.env, d) };
                 out.mismatch(ctx, &format!("hash256_differs:{}", sig), format!("{}: hash256 differs between the two spellings ({} vs {})", name, h1, h2), json!({"p1": case.p1, "p2": case.p2, "parser": name, "type": d}));
             }
         }
@@ -576,6 +592,17 @@ impl Check for C13 {
                     } else {
                         d1 = D::obj(vec![("k", a, false), ("n", D::Num, false)]);
                         d2 = D::obj(vec![("k", b, false), ("n", D::Num, false)]);
+                    }
+                }
+                // ... or a string format against the number format of the same name (different types, same format names)
+                if s.chance(1, 10) {
+                    let (a, b) = (D::StrFmt(vec![crate::den::SHARED_FORMAT.to_string()]), D::NumFmt(vec![crate::den::SHARED_FORMAT.to_string()]));
+                    if s.chance(1, 2) {
+                        d1 = a;
+                        d2 = b;
+                    } else {
+                        d1 = D::obj(vec![("id", a, false), ("n", D::Num, false)]);
+                        d2 = D::obj(vec![("id", b, false), ("n", D::Num, false)]);
                     }
                 }
                 // utility spellings matter here: Partial<...>, optional mapped members and Record are compiled to
